@@ -640,6 +640,7 @@ impl Property for C18Prop {
             "constant" => check_constant(case["path"].as_str().unwrap_or(""), stats),
             "fs" => check_fs(case, stats),
             "stdin" => check_stdin(case, stats),
+            "stdout-fault" => check_stdout_fault(case, stats),
             _ => Verdict::Discard("unknown kind"),
         }
     }
@@ -967,6 +968,113 @@ pub(crate) fn scratch() -> &'static PathBuf {
     })
 }
 
+/// child side of the stdout fault states: this process's stdout was opened by the parent on
+/// something that refuses writes. Every function of std.io except cgetline is called on (a capped
+/// product of) its argument pools through the host API, and a program prints in between other
+/// work; each call must return a value of its declared result type. Reports go to stderr.
+pub fn child(_mode: &str) -> i32 {
+    let mut calls = 0u64;
+    let mut failures = 0u64;
+    for e in exports() {
+        if !e.path.starts_with("std.io.") || e.path == "std.io.cgetline" {
+            continue;
+        }
+        let Variable::Function(f) = &e.value else { continue };
+        let Ty::Fun(params, ret) = Ty::from_real(&f.as_type()) else { continue };
+        let pools: Vec<Vec<Variable>> = params.iter().map(args_for).collect();
+        if pools.iter().any(Vec::is_empty) && !params.is_empty() {
+            continue;
+        }
+        for args in product(&pools, 300) {
+            calls += 1;
+            let shown = format!("{args:?}");
+            match invoke(f, args) {
+                Outcome::Value(v) => {
+                    if let Some(why) = ty::not_inhabits(&v, &ret, 0) {
+                        failures += 1;
+                        eprintln!("FAIL\t{}\tresult-type\t{}{shown}: {why}", e.path, e.path);
+                    }
+                }
+                other => {
+                    failures += 1;
+                    eprintln!("FAIL\t{}\traised\t{}{} ended with {}", e.path, e.path, shown.chars().take(200).collect::<String>(), other.short().replace('\n', " "));
+                    break;
+                }
+            }
+        }
+    }
+    for (program, want) in [
+        ("std.io.print(1); std.io.print_array([1, 2], \", \"); 5", "5"),
+        ("n := mut 0; for x in [1, 2, 3]~ { std.io.print(x); n += x; }; *n", "6"),
+        ("f := (s: string) -> int { std.io.print(s); return std.len(s); }; f(\"abc\") + f(\"\")", "3"),
+    ] {
+        calls += 1;
+        match run::run_text(program, true) {
+            Outcome::Value(v) if ty::show(&v) == want => {}
+            other => {
+                failures += 1;
+                eprintln!("FAIL\tprogram\traised\t`{program}` ended with {} (expected the value {want})", other.short().replace('\n', " "));
+            }
+        }
+    }
+    eprintln!("CALLS\t{calls}");
+    if failures > 0 { 1 } else { 0 }
+}
+
+/// The print functions with a stdout that cannot be written: a full device, a pipe whose reader is
+/// gone, a closed descriptor. The calls run in a child process of the harness whose stdout is that.
+fn check_stdout_fault(case: &Json, stats: &mut Stats) -> Verdict {
+    use std::process::{Command, Stdio};
+    let mode = case["mode"].as_str().unwrap_or("full");
+    let mut cmd = Command::new("/proc/self/exe");
+    cmd.args(["C18", "child", mode]).stdin(Stdio::null()).stderr(Stdio::piped());
+    match mode {
+        "full" => match std::fs::OpenOptions::new().write(true).open("/dev/full") {
+            Ok(f) => {
+                cmd.stdout(f);
+            }
+            Err(_) => return Verdict::Discard("/dev/full cannot be opened"),
+        },
+        "read-only" => match std::fs::File::open("/dev/null") {
+            // a descriptor opened for reading only: every write fails with EBADF
+            Ok(f) => {
+                cmd.stdout(f);
+            }
+            Err(_) => return Verdict::Discard("/dev/null cannot be opened"),
+        },
+        _ => {
+            cmd.stdout(Stdio::piped());
+        }
+    }
+    let Ok(mut child) = cmd.spawn() else {
+        return Verdict::Inconclusive("child process did not start");
+    };
+    // broken pipe: the reading end is closed before the child writes anything of substance
+    drop(child.stdout.take());
+    let Ok(out) = child.wait_with_output() else {
+        return Verdict::Inconclusive("child process did not finish");
+    };
+    let report = String::from_utf8_lossy(&out.stderr).to_string();
+    let calls: u64 = report.lines().find_map(|l| l.strip_prefix("CALLS\t")).and_then(|n| n.trim().parse().ok()).unwrap_or(0);
+    stats.evals(calls);
+    stats.label(&format!("stdout fault state: {mode}"));
+    stats.nontrivial(&format!("stdout fault {mode}"));
+    if let Some(line) = report.lines().find(|l| l.starts_with("FAIL\t")) {
+        let parts: Vec<&str> = line.splitn(4, '\t').collect();
+        let (path, what, msg) = (parts.get(1).copied().unwrap_or("?"), parts.get(2).copied().unwrap_or("raised"), parts.get(3).copied().unwrap_or(line));
+        return fail(format!("C18:{what}:{path}:stdout-unwritable"), format!("with a stdout that cannot be written ({mode}): {msg}"));
+    }
+    if calls == 0 {
+        // the child died before reporting (an abort is not a panic the guard can catch)
+        if report.contains("INCONCLUSIVE") {
+            return Verdict::Inconclusive("child watchdog");
+        }
+        return fail("C18:raised:std.io:stdout-unwritable", format!("with a stdout that cannot be written ({mode}) the process calling the print functions ended with {:?} before finishing: {}", out.status.code(), report.chars().take(300).collect::<String>()));
+    }
+    stats.sample(3, || json!({"stdout": mode, "calls_that_returned": calls}));
+    Verdict::Pass
+}
+
 fn check_stdin(case: &Json, stats: &mut Stats) -> Verdict {
     let Some(e) = find("std.io.cgetline") else {
         return Verdict::Discard("cgetline not exported");
@@ -1236,8 +1344,13 @@ pub fn run(session: &Session) -> i32 {
             session.run_one(&C18, &json!({"kind": "stdin", "bytes": bytes}));
         }
     }
+    for mode in ["full", "broken-pipe", "read-only"] {
+        if !session.stopped() {
+            session.run_one(&C18, &json!({"kind": "stdout-fault", "mode": mode}));
+        }
+    }
     let code = session.finish(
-        "(plus tape-generated random arguments for every pure export) the export list is discovered by walking the `std` value; every exported function is called through Function::create_call (and, for first-order arguments, as the in-language call) on the product of boundary pools for its declared parameter types (24 ints incl. MIN/MAX, 30 floats incl. NaN, infinities, signed zero, subnormal, ties at .5, beyond 2^52 and 2^63, 22 strings incl. empty, Unicode whitespace, multi-byte, case-special letters, number-like texts; byte arrays incl. invalid UTF-8 and non-byte ints; iterators over int/float/bool/string arrays; any-typed values); the result must inhabit the declared result type and never raise; for len, convert, string, bit-counting, integer-log, rounding, classification, bit-cast and iterator-reducer helpers it must equal the documented result computed by naive independent code (remaining float functions: the platform's libm). File-system functions run on 14 path states (file, missing, directory, empty and non-empty directory, path through a file, missing parent, existing target, non-UTF-8 content, deep new path, empty path, NUL byte, ..) x all pairs for copy/rename, differentially against std::fs on a twin directory: same success/failure, documented error struct on failure, identical resulting trees. cgetline gets 10 generated stdin contents incl. empty, unterminated and invalid UTF-8; print functions run with stdout redirected. Non-trivial = boundary argument or fault state; distinct by call.",
+        "(plus tape-generated random arguments for every pure export) the export list is discovered by walking the `std` value; every exported function is called through Function::create_call (and, for first-order arguments, as the in-language call) on the product of boundary pools for its declared parameter types (24 ints incl. MIN/MAX, 30 floats incl. NaN, infinities, signed zero, subnormal, ties at .5, beyond 2^52 and 2^63, 22 strings incl. empty, Unicode whitespace, multi-byte, case-special letters, number-like texts; byte arrays incl. invalid UTF-8 and non-byte ints; iterators over int/float/bool/string arrays; any-typed values); the result must inhabit the declared result type and never raise; for len, convert, string, bit-counting, integer-log, rounding, classification, bit-cast and iterator-reducer helpers it must equal the documented result computed by naive independent code (remaining float functions: the platform's libm). File-system functions run on 14 path states (file, missing, directory, empty and non-empty directory, path through a file, missing parent, existing target, non-UTF-8 content, deep new path, empty path, NUL byte, ..) x all pairs for copy/rename, differentially against std::fs on a twin directory: same success/failure, documented error struct on failure, identical resulting trees. cgetline gets 10 generated stdin contents incl. empty, unterminated and invalid UTF-8; print functions run with stdout redirected to a file (printed text compared with the documented text) and, in child processes of the harness, with a stdout that cannot be written (full device, pipe without a reader, descriptor opened read-only): every call still returns. Non-trivial = boundary argument or fault state; distinct by call.",
         true,
         &["transcendental float functions are compared with the platform libm (the same one the implementation uses): this only detects swapped or mis-wired functions",
           "exhaustive over the stated argument pools, not over all arguments"],
